@@ -384,15 +384,66 @@ func literalBoundaries() []*big.Int {
 // ---------------------------------------------------------------------------------------------
 // Run
 
+// oty is an operand type: one of the ten integer types or a DECIMAL(24,scale) column type.
+type oty struct {
+	name     string
+	decl     string
+	isDec    bool
+	scale    int
+	unsigned bool
+	it       ity
+}
+
+func otys() []oty {
+	var out []oty
+	for _, t := range itys {
+		out = append(out, oty{name: t.name, decl: t.decl, unsigned: t.unsigned, it: t})
+	}
+	for _, sc := range []int{0, 2, 5} {
+		out = append(out, oty{name: fmt.Sprintf("d%d", sc), decl: fmt.Sprintf("decimal(24,%d)", sc), isDec: true, scale: sc})
+	}
+	return out
+}
+
 type operand struct {
-	kind string // "col" | "lit"
-	t    ity    // for col
-	v    *big.Int
+	kind string   // "col" | "lit"
+	t    oty      // col: column type; lit: literal type as the engine reports it (integers) or a decimal literal
+	v    *big.Int // integer value, or the coefficient of a decimal
 	null bool
+}
+
+func pow10(n int) *big.Int { return new(big.Int).Exp(big.NewInt(10), big.NewInt(int64(n)), nil) }
+
+// decText renders coefficient/scale as fixed-point text (canonical: no negative zero).
+func decText(c *big.Int, scale int) string {
+	s := new(big.Int).Abs(c).String()
+	if scale > 0 {
+		for len(s) <= scale {
+			s = "0" + s
+		}
+		s = s[:len(s)-scale] + "." + s[len(s)-scale:]
+	}
+	if c.Sign() < 0 {
+		s = "-" + s
+	}
+	return s
+}
+
+func (o operand) sqlText() string {
+	if o.null {
+		return "NULL"
+	}
+	if o.t.isDec {
+		return decText(o.v, o.t.scale)
+	}
+	return o.v.String()
 }
 
 func (o operand) payload() string {
 	if o.kind == "lit" {
+		if o.t.isDec {
+			return hx.List("dlit", o.v.String(), fmt.Sprint(o.t.scale))
+		}
 		return hx.List("lit", o.v.String())
 	}
 	if o.null {
@@ -401,12 +452,38 @@ func (o operand) payload() string {
 	return hx.List("col", o.t.name, o.v.String())
 }
 
-// litType mirrors nothing: it asks whether the literal is an integer-typed literal at all (range only).
 func litIsInt(v *big.Int) bool { return v.Cmp(minI64) >= 0 && v.Cmp(maxU64) <= 0 }
 
-func genValues(r *hx.Rand, t ity, n int) []*big.Int {
+func genValues(r *hx.Rand, ot oty, n int) []*big.Int {
 	var vs []*big.Int
 	seen := map[string]bool{}
+	if ot.isDec {
+		add := func(v *big.Int) {
+			if !seen[v.String()] && len(vs) < n {
+				seen[v.String()] = true
+				vs = append(vs, v)
+			}
+		}
+		add(big.NewInt(0))
+		add(pow10(ot.scale))                                  // 1
+		add(new(big.Int).Neg(big.NewInt(1)))                  // -10^-scale
+		add(new(big.Int).Mul(big.NewInt(2), pow10(ot.scale))) // 2
+		for len(vs) < n {
+			digits := 1 + r.Intn(19)
+			x := new(big.Int).SetUint64(r.U64())
+			x.Mod(x, pow10(digits))
+			if r.Chance(1, 4) { // whole numbers
+				x.Mod(x, pow10(3))
+				x.Mul(x, pow10(ot.scale))
+			}
+			if r.Bool() {
+				x.Neg(x)
+			}
+			add(x)
+		}
+		return vs
+	}
+	t := ot.it
 	add := func(v *big.Int) {
 		v = t.clampTo(v)
 		if !seen[v.String()] && len(vs) < n {
@@ -484,63 +561,90 @@ func errClass(r *eng.Res) string {
 	return c
 }
 
-// exact reference (math/big); returns the acceptable observations: exact text and whether an error is acceptable
-func reference(op string, l, r operand, lt, rt ity) (exact string, errOK bool) {
+func fitsRes(v *big.Int, unsignedRes bool) bool {
+	if v.Cmp(minI64) < 0 || v.Cmp(maxI64) > 0 {
+		return false
+	}
+	if unsignedRes && v.Sign() < 0 {
+		return false
+	}
+	return true
+}
+
+// reference computes the exact result with math/big: the acceptable text and whether an out-of-range error
+// is acceptable as well.
+func reference(op string, l, r operand) (exact string, errOK bool) {
 	if l.null || r.null {
 		return "null", false
 	}
-	a, b := l.v, r.v
-	bothU := lt.unsigned && rt.unsigned
-	anyU := lt.unsigned || rt.unsigned
-	fits := func(v *big.Int, unsignedRes bool) bool {
-		if v.Cmp(minI64) < 0 || v.Cmp(maxI64) > 0 {
-			return false
-		}
-		if unsignedRes && v.Sign() < 0 {
-			return false
-		}
-		return true
-	}
-	switch op {
-	case "add", "sub", "mul":
-		v := new(big.Int)
+	lt, rt := l.t, r.t
+	if !lt.isDec && !rt.isDec {
+		a, b := l.v, r.v
+		bothU := lt.unsigned && rt.unsigned
+		anyU := lt.unsigned || rt.unsigned
 		switch op {
-		case "add":
-			v.Add(a, b)
-		case "sub":
-			v.Sub(a, b)
-		case "mul":
-			v.Mul(a, b)
+		case "add", "sub", "mul":
+			v := new(big.Int)
+			switch op {
+			case "add":
+				v.Add(a, b)
+			case "sub":
+				v.Sub(a, b)
+			case "mul":
+				v.Mul(a, b)
+			}
+			return v.String(), !fitsRes(v, bothU)
+		case "idiv":
+			if b.Sign() == 0 {
+				return "null", false
+			}
+			v := new(big.Int).Quo(a, b)
+			return v.String(), !fitsRes(v, anyU)
 		}
-		return v.String(), !fits(v, bothU)
+	}
+	// decimal semantics (also `%` and `/` on integers): scaled integers
+	ls, rs := lt.scale, rt.scale
+	s := ls
+	if rs > s {
+		s = rs
+	}
+	a := new(big.Int).Mul(l.v, pow10(s-ls))
+	b := new(big.Int).Mul(r.v, pow10(s-rs))
+	switch op {
+	case "add":
+		return decText(new(big.Int).Add(a, b), s), false
+	case "sub":
+		return decText(new(big.Int).Sub(a, b), s), false
+	case "mul":
+		return decText(new(big.Int).Mul(l.v, r.v), ls+rs), false
 	case "idiv":
 		if b.Sign() == 0 {
 			return "null", false
 		}
 		v := new(big.Int).Quo(a, b)
-		return v.String(), !fits(v, anyU)
+		return v.String(), !fitsRes(v, (!lt.isDec && lt.unsigned) || (!rt.isDec && rt.unsigned))
 	case "mod":
 		if b.Sign() == 0 {
 			return "null", false
 		}
-		return new(big.Int).Rem(a, b).String(), false
+		return decText(new(big.Int).Rem(a, b), s), false
 	case "div":
 		if b.Sign() == 0 {
 			return "null", false
 		}
-		na, nb := new(big.Int).Abs(a), new(big.Int).Abs(b)
-		num := new(big.Int).Mul(na, big.NewInt(20000))
-		num.Add(num, nb)
-		q := num.Quo(num, new(big.Int).Mul(nb, big.NewInt(2)))
-		s := q.String()
-		for len(s) < 5 {
-			s = "0" + s
+		f := ls + 4
+		if f > 30 {
+			f = 30
 		}
-		s = s[:len(s)-4] + "." + s[len(s)-4:]
-		if (a.Sign() < 0) != (b.Sign() < 0) && q.Sign() != 0 {
-			s = "-" + s
+		// |l|/|r| * 10^f rounded half away from zero: n = |cl| 10^(f+rs), d = |cr| 10^ls
+		n := new(big.Int).Mul(new(big.Int).Abs(l.v), pow10(f+rs))
+		d := new(big.Int).Mul(new(big.Int).Abs(r.v), pow10(ls))
+		num := new(big.Int).Add(new(big.Int).Mul(n, big.NewInt(2)), d)
+		q := num.Quo(num, new(big.Int).Mul(d, big.NewInt(2)))
+		if (l.v.Sign() < 0) != (r.v.Sign() < 0) {
+			q.Neg(q)
 		}
-		return s, false
+		return decText(q, f), false
 	}
 	panic("op")
 }
@@ -548,13 +652,14 @@ func reference(op string, l, r operand, lt, rt ity) (exact string, errOK bool) {
 func run(a hx.RunArgs) error {
 	out := hx.NewOut(a.OutDir)
 	defer out.Close()
-	out.Rule = "SELECT <x> op <y> on the real engine with x,y columns of each of the 10 integer types (all 100 type pairs, boundary values " +
-		"{min,min+1,-1,0,1,2,max-1,max}, values near powers of two / square roots of the 64-bit bounds, random values, NULL) and integer literals " +
-		"(the planbuilder's literal typing boundaries), op in + - * DIV % /, plus unary minus on every column type; " +
-		"a case is non-trivial when no operand is NULL or 0"
+	out.Rule = "SELECT <x> op <y> on the real engine with x,y columns of each of the 10 integer types and DECIMAL(24,0/2/5) (all 169 type pairs, " +
+		"integer boundary values {min,min+1,-1,0,1,2,max-1,max}, values near powers of two / square roots of the 64-bit bounds, random values, NULL), " +
+		"integer literals (the planbuilder's literal typing boundaries) and decimal literals of scale 1-6, op in + - * DIV % /, plus unary minus on every " +
+		"integer column type; a case is non-trivial when no operand is NULL or 0"
 	r := hx.NewRand(a.Seed)
 	e := eng.New("d")
 	ctx := e.Ctx()
+	tys := otys()
 
 	record := func(kind string, opName string, l, rr operand, obs string) {
 		var payload string
@@ -568,6 +673,9 @@ func run(a hx.RunArgs) error {
 		}
 		id := out.Case(payload, obs, nontrivial)
 		out.Stat(kind + ":" + opName)
+		if kind == "bin" && (l.t.isDec || rr.t.isDec) {
+			out.Stat("operands:decimal")
+		}
 		if strings.HasPrefix(obs, "err") {
 			out.Stat("obs:" + obs)
 		} else if obs == "null" {
@@ -585,8 +693,7 @@ func run(a hx.RunArgs) error {
 				errOK = v.Cmp(minI64) < 0 || v.Cmp(maxI64) > 0
 			}
 		} else {
-			lt, rt := l.t, rr.t
-			exact, errOK = reference(opName, l, rr, lt, rt)
+			exact, errOK = reference(opName, l, rr)
 		}
 		if obs != exact && !(errOK && obs == "err:range") {
 			out.OracleFail(id, "-", fmt.Sprintf("%s: engine returned %s, exact result is %s%s", payload, obs, exact, map[bool]string{true: " (an out-of-range error would also be acceptable)", false: ""}[errOK]))
@@ -599,71 +706,80 @@ func run(a hx.RunArgs) error {
 		}
 		return canonNum(res.Rows[i][col])
 	}
+	one := func(q string) string { // single-row statement: observation of column `col`
+		res := e.Query(ctx, q)
+		obs := errClass(res)
+		if obs == "ok" {
+			if len(res.Rows) != 1 {
+				return fmt.Sprintf("rows:%d", len(res.Rows))
+			}
+			return cell(res, 0, len(res.Rows[0])-1)
+		}
+		return obs
+	}
 
 	rounds := 1
-	n := 12
+	n := 10
 	if a.Thorough {
-		rounds, n = 4, 34
+		rounds, n = 4, 28
 	}
-	litType := func(v *big.Int) (ity, bool) { // harness-side mirror used only to give the oracle the operand signedness
+	litType := func(v *big.Int) (oty, bool) { // the type the engine reports for the literal (gives the oracle its signedness)
 		if !litIsInt(v) {
-			return ity{}, false
+			return oty{}, false
 		}
 		q := e.Query(ctx, "select "+v.String())
 		if q.Class() != "ok" {
-			return ity{}, false
+			return oty{}, false
 		}
-		for _, t := range itys {
-			if t.decl == q.Types[0] {
+		for _, t := range tys {
+			if !t.isDec && t.decl == q.Types[0] {
 				return t, true
 			}
 		}
-		return ity{}, false
+		return oty{}, false
+	}
+	opSQL := map[string]string{}
+	for _, o := range ops {
+		opSQL[o.name] = o.sql
 	}
 
 	for round := 0; round < rounds; round++ {
 		// value lists: index n-1 is NULL
 		vals := map[string][]*big.Int{}
-		for _, t := range itys {
+		for _, t := range tys {
 			vals[t.name] = genValues(r, t, n-1)
+		}
+		colOp := func(t oty, i int) operand {
+			if i == n-1 {
+				return operand{kind: "col", t: t, null: true}
+			}
+			return operand{kind: "col", t: t, v: vals[t.name][i]}
 		}
 		// pair table p: row (i,j) -> a_T = V_T[i], b_T = V_T[j]; single table q: row i -> c_T = V_T[i]
 		e.Query(ctx, "drop table if exists p")
 		e.Query(ctx, "drop table if exists q")
 		var colsP, colsQ []string
-		for _, t := range itys {
+		for _, t := range tys {
 			colsP = append(colsP, "a_"+t.name+" "+t.decl, "b_"+t.name+" "+t.decl)
 			colsQ = append(colsQ, "c_"+t.name+" "+t.decl)
 		}
 		e.MustExec(ctx, "create table p (id int primary key, "+strings.Join(colsP, ", ")+")",
 			"create table q (id int primary key, "+strings.Join(colsQ, ", ")+")")
-		sv := func(t ity, i int) string {
-			if i == n-1 {
-				return "NULL"
-			}
-			return vals[t.name][i].String()
-		}
 		for i := 0; i < n; i++ {
 			var rowsSQL []string
 			for j := 0; j < n; j++ {
 				parts := []string{fmt.Sprint(i*n + j)}
-				for _, t := range itys {
-					parts = append(parts, sv(t, i), sv(t, j))
+				for _, t := range tys {
+					parts = append(parts, colOp(t, i).sqlText(), colOp(t, j).sqlText())
 				}
 				rowsSQL = append(rowsSQL, "("+strings.Join(parts, ",")+")")
 			}
 			e.MustExec(ctx, "insert into p values "+strings.Join(rowsSQL, ","))
 			parts := []string{fmt.Sprint(i)}
-			for _, t := range itys {
-				parts = append(parts, sv(t, i))
+			for _, t := range tys {
+				parts = append(parts, colOp(t, i).sqlText())
 			}
 			e.MustExec(ctx, "insert into q values ("+strings.Join(parts, ",")+")")
-		}
-		colOp := func(t ity, i int) operand {
-			if i == n-1 {
-				return operand{kind: "col", t: t, null: true}
-			}
-			return operand{kind: "col", t: t, v: vals[t.name][i]}
 		}
 
 		// corpus first (witnesses of the listed findings and regression cases), as literal-only statements
@@ -674,35 +790,32 @@ func run(a hx.RunArgs) error {
 				{"200", "sub", "201"}, {"-9223372036854775808", "idiv", "-1"}, {"-5", "idiv", "200"}, {"-500", "idiv", "200"}, {"18446744073709551615", "idiv", "1"},
 				{"7", "idiv", "2"}, {"-7", "idiv", "2"}, {"7", "idiv", "-2"}, {"-7", "mod", "2"}, {"7", "mod", "-2"}, {"1", "div", "3"}, {"2", "div", "3"},
 				{"-2", "div", "3"}, {"1", "div", "0"}, {"1", "idiv", "0"}, {"1", "mod", "0"}, {"3000001", "div", "20000006667"},
+				{"2.00000", "div", "3"}, {"2.0000", "div", "3"}, {"2.00000", "div", "3.0"}, {"1.5", "add", "2.25"}, {"1.5", "mul", "2.25"}, {"0.30", "sub", "0.3"},
+				{"7.5", "mod", "-2.25"}, {"-7.5", "idiv", "2"}, {"-7.5", "idiv", "200"}, {"1.5", "div", "0"}, {"-0.5", "mul", "0"},
+			}
+			mk := func(s string) (operand, bool) {
+				if i := strings.Index(s, "."); i >= 0 {
+					sc := len(s) - i - 1
+					return operand{kind: "lit", t: oty{name: "dlit", isDec: true, scale: sc}, v: bi(strings.Replace(s, ".", "", 1))}, true
+				}
+				t, ok := litType(bi(s))
+				return operand{kind: "lit", t: t, v: bi(s)}, ok
 			}
 			for _, c := range corpus {
-				l, rr := operand{kind: "lit", v: bi(c[0])}, operand{kind: "lit", v: bi(c[2])}
-				var ok1, ok2 bool
-				l.t, ok1 = litType(l.v)
-				rr.t, ok2 = litType(rr.v)
+				l, ok1 := mk(c[0])
+				rr, ok2 := mk(c[2])
 				if !ok1 || !ok2 {
 					continue
 				}
-				opSQL := ""
-				for _, o := range ops {
-					if o.name == c[1] {
-						opSQL = o.sql
-					}
-				}
-				res := e.Query(ctx, fmt.Sprintf("select %s %s %s", c[0], opSQL, c[2]))
-				obs := errClass(res)
-				if obs == "ok" {
-					obs = cell(res, 0, 0)
-				}
-				record("bin", c[1], l, rr, obs)
+				record("bin", c[1], l, rr, one(fmt.Sprintf("select %s %s %s", c[0], opSQL[c[1]], c[2])))
 				out.Stat("stream:corpus")
 			}
 		}
 
 		// binary operators, column × column
 		for _, op := range ops {
-			for _, lt := range itys {
-				for _, rt := range itys {
+			for _, lt := range tys {
+				for _, rt := range tys {
 					q := fmt.Sprintf("select id, a_%s %s b_%s from p order by id", lt.name, op.sql, rt.name)
 					res := e.Query(ctx, q)
 					if res.Class() == "ok" && len(res.Rows) == n*n {
@@ -715,23 +828,18 @@ func run(a hx.RunArgs) error {
 					// some row raised an error: evaluate row by row
 					out.Stat("stream:col-col-rowwise")
 					for k := 0; k < n*n; k++ {
-						res := e.Query(ctx, fmt.Sprintf("select id, a_%s %s b_%s from p where id = %d", lt.name, op.sql, rt.name, k))
-						obs := errClass(res)
-						if obs == "ok" {
-							if len(res.Rows) != 1 {
-								obs = fmt.Sprintf("rows:%d", len(res.Rows))
-							} else {
-								obs = cell(res, 0, 1)
-							}
-						}
-						record("bin", op.name, colOp(lt, k/n), colOp(rt, k%n), obs)
+						record("bin", op.name, colOp(lt, k/n), colOp(rt, k%n),
+							one(fmt.Sprintf("select id, a_%s %s b_%s from p where id = %d", lt.name, op.sql, rt.name, k)))
 					}
 				}
 			}
 		}
 
-		// unary minus on columns
-		for _, t := range itys {
+		// unary minus on integer columns
+		for _, t := range tys {
+			if t.isDec {
+				continue
+			}
 			res := e.Query(ctx, fmt.Sprintf("select id, -c_%s from q order by id", t.name))
 			if res.Class() == "ok" && len(res.Rows) == n {
 				for k := 0; k < n; k++ {
@@ -740,16 +848,7 @@ func run(a hx.RunArgs) error {
 				continue
 			}
 			for k := 0; k < n; k++ {
-				res := e.Query(ctx, fmt.Sprintf("select id, -c_%s from q where id = %d", t.name, k))
-				obs := errClass(res)
-				if obs == "ok" {
-					if len(res.Rows) != 1 {
-						obs = fmt.Sprintf("rows:%d", len(res.Rows))
-					} else {
-						obs = cell(res, 0, 1)
-					}
-				}
-				record("neg", "neg", colOp(t, k), operand{}, obs)
+				record("neg", "neg", colOp(t, k), operand{}, one(fmt.Sprintf("select id, -c_%s from q where id = %d", t.name, k)))
 			}
 		}
 
@@ -759,46 +858,47 @@ func run(a hx.RunArgs) error {
 		if a.Thorough {
 			nl = 14
 		}
-		var chosen []*big.Int
+		var chosen []operand
 		for i := 0; i < nl; i++ {
+			if r.Chance(1, 3) { // decimal literal of scale 1..6
+				sc := 1 + r.Intn(6)
+				digits := 1 + r.Intn(12)
+				x := new(big.Int).SetUint64(r.U64())
+				x.Mod(x, pow10(digits))
+				if r.Chance(1, 3) {
+					x.Mod(x, big.NewInt(10))
+					x.Mul(x, pow10(sc))
+				}
+				if r.Chance(1, 3) {
+					x.Neg(x)
+				}
+				chosen = append(chosen, operand{kind: "lit", t: oty{name: "dlit", isDec: true, scale: sc}, v: x})
+				continue
+			}
 			v := hx.Pick(r, lits)
 			if r.Chance(1, 3) {
 				v = hx.Pick(r, vals[hx.Pick(r, itys).name])
 			}
-			if litIsInt(v) {
-				chosen = append(chosen, v)
+			if t, ok := litType(v); ok {
+				chosen = append(chosen, operand{kind: "lit", t: t, v: v})
 			}
 		}
-		for _, lv := range chosen {
-			lt, ok := litType(lv)
-			if !ok {
-				continue
-			}
-			lop := operand{kind: "lit", t: lt, v: lv}
+		for _, lop := range chosen {
 			for _, op := range ops {
-				for _, t := range itys {
+				for _, t := range tys {
 					for _, left := range []bool{true, false} {
 						var q string
 						if left {
-							q = fmt.Sprintf("select id, %s %s c_%s from q order by id", lv.String(), op.sql, t.name)
+							q = fmt.Sprintf("select id, %s %s c_%s from q order by id", lop.sqlText(), op.sql, t.name)
 						} else {
-							q = fmt.Sprintf("select id, c_%s %s %s from q order by id", t.name, op.sql, lv.String())
+							q = fmt.Sprintf("select id, c_%s %s %s from q order by id", t.name, op.sql, lop.sqlText())
 						}
 						res := e.Query(ctx, q)
 						rowwise := !(res.Class() == "ok" && len(res.Rows) == n)
 						for k := 0; k < n; k++ {
 							var obs string
 							if rowwise {
-								rq := strings.Replace(q, " order by id", fmt.Sprintf(" where id = %d", k), 1)
-								rres := e.Query(ctx, rq)
-								obs = errClass(rres)
-								if obs == "ok" {
-									if len(rres.Rows) != 1 {
-										obs = fmt.Sprintf("rows:%d", len(rres.Rows))
-									} else {
-										obs = cell(rres, 0, 1)
-									}
-								}
+								obs = one(strings.Replace(q, " order by id", fmt.Sprintf(" where id = %d", k), 1))
 							} else {
 								obs = cell(res, k, 1)
 							}
@@ -811,17 +911,8 @@ func run(a hx.RunArgs) error {
 						out.Stat("stream:col-lit")
 					}
 				}
-				for _, lv2 := range chosen {
-					lt2, ok := litType(lv2)
-					if !ok {
-						continue
-					}
-					res := e.Query(ctx, fmt.Sprintf("select %s %s %s", lv.String(), op.sql, lv2.String()))
-					obs := errClass(res)
-					if obs == "ok" {
-						obs = cell(res, 0, 0)
-					}
-					record("bin", op.name, lop, operand{kind: "lit", t: lt2, v: lv2}, obs)
+				for _, lop2 := range chosen {
+					record("bin", op.name, lop, lop2, one(fmt.Sprintf("select %s %s %s", lop.sqlText(), op.sql, lop2.sqlText())))
 					out.Stat("stream:lit-lit")
 				}
 			}
